@@ -1,5 +1,6 @@
 // UNIT api: the model-checking entry points (C01, C03, C04, C14, C15 at the level of the public API)
 #![feature(allocator_api)]
+#![feature(pattern)]
 #![allow(unused_imports, dead_code, unused_variables, unused_mut, non_snake_case, unused_parens)]
 use vstd::prelude::*;
 use vstd::string::StringSliceAdditionalSpecFns;
@@ -16,6 +17,7 @@ verus! {
 
 //@include prelude/bn_model.rs
 //@include prelude/std_model.rs
+//@include prelude/weak_std.rs
 //@include spec/syntax.rs
 //@include spec/grammar.rs
 //@include spec/lex.rs
